@@ -41,20 +41,24 @@ func c02HeaderEq(got, want http.Header) bool {
 }
 
 // VH_C02_LengthLimits: Exchange.Write at the format's length-field boundaries - request URL of 65535 / 65536 bytes
-// (2-byte field, 1b2/1b3), Signature header of 16384 / 16385 bytes (spec limit, 1b2/1b3), header block of
-// 524288 / 524289 bytes (spec limit; thorough tier) - mostly constant content with symbolic marker bytes:
+// (2-byte field, 1b2/1b3), Signature header of 16384 / 16385 bytes (spec limit in 1b2/1b3, none in 1b1), header
+// block of 524288 / 524289 bytes (spec limit in 1b2/1b3, none in 1b1; thorough tier) - mostly constant content with symbolic marker bytes:
 // the write either fails, or ReadExchange maps the bytes back to the identical version, URL, method, status,
 // headers, Signature header and payload (never a file that reads back differently).
 func VH_C02_LengthLimits() {
 	vh.MustReach("written", "refused")
 	vh.Budget(400000000) // net/url is interpreted character by character on a 64 KiB URL
-	ver := sxVersions[vh.Choose(2)] // 1b3, 1b2
+	ver := sxVersions[vh.Choose(3)] // 1b3, 1b2, 1b1
+	// 1b1 has no 2-byte URL field and no spec limits ("TBD"): only its 3-byte fields bound the sizes, so the
+	// "over" sizes below must be written AND read back there
+	limited := ver != version.Version1b1
 	url := "https://example.org/a"
 	sig := "label;sig=*AA==*"
 	hval := "v"
 	nk := 2 + vh.Tier()
 	kind := vh.Choose(nk)
 	over := vh.Choose(2) == 1
+	vh.Assume(limited || kind != 0) // the 64 KiB URL case is about the 2-byte field of 1b2/1b3
 	switch kind {
 	case 0:
 		n := 65535
@@ -87,11 +91,11 @@ func VH_C02_LengthLimits() {
 	err := e.Write(&w)
 	if err != nil {
 		vh.Reach("refused")
-		vh.Assert(over, "a write is refused only when a limit is exceeded")
+		vh.Assert(over && limited, "a write is refused only when a limit is exceeded")
 		return
 	}
 	vh.Reach("written")
-	vh.Assert(!over, "a URL / signature / header block that does not fit its length field or limit is refused")
+	vh.Assert(!over || !limited, "a URL / signature / header block that does not fit its length field or limit is refused")
 	back, rerr := ReadExchange(bytes.NewReader(w.B))
 	vh.Assert(rerr == nil, "what was written reads back")
 	if rerr != nil {
